@@ -258,10 +258,13 @@ where
 
     // `height()` panics for a length that is not a power of two: compare lengths instead.
     ensure!(trace_cap.len() == 1 << cap_height);
-    ensure!(
-        quotient_polys_cap.is_none()
-            || quotient_polys_cap.as_ref().map(|q| q.len()) == Some(1 << cap_height)
-    );
+    // The quotient commitment must be present exactly when the STARK has quotient polynomials:
+    // without it, `zeta` would be drawn before the prover is bound to a quotient and the quotient
+    // openings would not be tied to any commitment.
+    ensure!(match quotient_polys_cap {
+        Some(cap) => stark.num_quotient_polys(config) > 0 && cap.len() == 1 << cap_height,
+        None => stark.num_quotient_polys(config) == 0,
+    });
 
     ensure!(local_values.len() == S::COLUMNS);
     ensure!(next_values.len() == S::COLUMNS);
